@@ -133,8 +133,10 @@ example : decodeStrict 10 [0xa2, 0x18, 0x18, 0x03, 0x01, 0x02] = none
 
 `decodeS`/`encodeS` model `Decoder.Decode(&T)` / `Marshal(T)` for the Go type described by a `Schema`
 (regenerated from the code: `Fdo.Gen.Schemas`). For the fragment decided by `Schema.inFragment`
-decode ∘ encode = id is proved below for every conforming value; the remaining shapes (`omitempty`
-fields, the embedded COSE header, `any`, maps, certificates, timestamps, tag-number checking wrappers)
+decode ∘ encode = id is proved below for every conforming value (including the embedded COSE header with
+labels in encoding order and scalar values, and the tag-number checking wrappers `Sign1Tag`/`Mac0Tag`/
+`Encrypt0Tag`, whose raw pre-pass needs every typed encoding to be one well-formed untyped item — `w_all`);
+the remaining shapes (`omitempty` on other kinds, `any`, maps, certificates, timestamps, labels as values)
 are tied to the implementation by the correspondence run only. -/
 
 /-- **decode(encode(v)) = v for typed values**, with any following bytes left in the stream: for every
@@ -162,11 +164,12 @@ theorem wire_types_in_fragment :
       | none => false) =
     ["RawBytes", "int64", "uint8", "uint16", "int8", "int16", "int32", "int", "uint32", "uint64", "bytes", "string",
      "fixed16", "Bstr[int]", "ByteWrap[bytes]", "ByteWrap[Hash]", "Tag[Raw]", "Hash", "PublicKey", "RvInstruction",
-     "RvInfo", "RvTO2Addr", "To1d", "ErrorMessage", "VoucherHeader", "DeviceCredential", "TO2.HelloDevice",
-     "TO2.OVHProof", "TO2.DeviceSetup", "TO2.DeviceServiceInfoReady", "TO2.OwnerServiceInfoReady",
-     "TO2.DeviceServiceInfo", "TO2.OwnerServiceInfo", "TO2.Done", "TO2.Done2", "DI.SetCredentials", "TO0.HelloAck",
-     "TO0.AcceptOwner", "TO1.HelloRV", "TO1.HelloRVAck", "SigInfo", "serviceinfo.KV", "TO2.GetOVNextEntry",
-     "DI.SetHmac"] := by decide +kernel
+     "RvInfo", "RvTO2Addr", "To1d", "ErrorMessage", "Sign1Tag[Raw]", "Sign1Tag[To1d]", "Sign1Tag[OVHProof]",
+     "Sign1Tag[DeviceSetup]", "Mac0Tag", "Encrypt0Tag", "Encrypt0", "Mac0[Encrypt0]", "VoucherHeader",
+     "DeviceCredential", "TO2.HelloDevice", "TO2.OVHProof", "TO2.DeviceSetup", "TO2.DeviceServiceInfoReady",
+     "TO2.OwnerServiceInfoReady", "TO2.DeviceServiceInfo", "TO2.OwnerServiceInfo", "TO2.Done", "TO2.Done2",
+     "DI.SetCredentials", "TO0.HelloAck", "TO0.AcceptOwner", "TO1.HelloRV", "TO1.HelloRVAck", "SigInfo",
+     "serviceinfo.KV", "TO2.GetOVNextEntry", "DI.SetHmac"] := by decide +kernel
 
 /-- Non-vacuity: a rendezvous redirect (`protocol.To1d`: addresses with nil and non-nil pointers, a hash)
 conforms, marshals, and is read back. -/
